@@ -663,6 +663,43 @@ def pc_oracle(case, got):
     return None
 
 
+def same_tick(s, block):
+    """The same dump with its records stamped in blocks of `block` consecutive records per clock tick (the kernel's clock
+    is coarse: consecutive records of one thread often carry the same timestamp)."""
+    evs = []
+    t0 = int.from_bytes(bytes.fromhex(s['events'][0])[:8], 'little') if s['events'] else 256
+    for i, h in enumerate(s['events']):
+        b = bytes.fromhex(h)
+        evs.append(((t0 + i // block).to_bytes(8, 'little') + b[8:]).hex())
+    return dict(s, events=evs)
+
+
+def tick_lines(s):
+    codes = {int(k): v for k, v in s['codes'].items()}
+    p = make_parser('000110')                       # thread id and process columns, no timestamp column
+    lines, err = [], '-'
+    try:
+        for ln in p.formatted_traces(io.BytesIO(pc_file(s)), codes):
+            lines.append(ln)
+    except Exception as e:
+        err = core.err_name(e)
+    return lines, err
+
+
+def tick_oracle(case, got):
+    """Nothing but the timestamp column may depend on the timestamps: with that column off, the lines of the re-stamped
+    dump are the lines of the original dump."""
+    a, ea = tick_lines(case['orig'])
+    b, eb = tick_lines(case['stream'])
+    if (a, ea) != (b, eb):
+        i = next((k for k, (x, y) in enumerate(zip(a, b)) if x != y), min(len(a), len(b)))
+        return ('process:line-depends-on-timestamps',
+                'records re-stamped %d per tick: line %d reads %r, with distinct timestamps %r (timestamp column off; %d / %d '
+                'lines, errors %s / %s)' % (case['block'], i, (b[i:i + 1] or ['<none>'])[0], (a[i:i + 1] or ['<none>'])[0],
+                                            len(b), len(a), eb, ea))
+    return None
+
+
 def pc_kevent_stream(s):
     """The same dump as an input of the event-line section (formatted_kevents never runs the decoders)."""
     evs = []
@@ -855,6 +892,15 @@ def correspondence(rep, rng, tier):
                 nontrivial_fn=lambda c, g: g.startswith('ok ') and not g.startswith('ok - '),
                 kind_fn=lambda c, g: 'lines=%d' % min(8, len(g.split(' ;')[0].split(' ')) - 1),
                 rule=RULES['process-column'])
+    tick_cases = []
+    for i, x in enumerate(pcs[:(150 if tier == 'quick' else 4000)]):
+        if x['events'] and bytes.fromhex(x['events'][0])[0] != 0:
+            blk = [len(x['events']), 2, 3, len(x['events']), 5][i % 5]
+            tick_cases.append({'stream': same_tick(x, blk), 'orig': x, 'block': blk})
+    run_section(rep, 'process-column-same-tick', tick_cases, pc_line, pc_impl, tick_oracle,
+                nontrivial_fn=lambda c, got: len(got) > 12, kind_fn=lambda c, got: 'block=%s' % ('all' if c['block'] > 5 else c['block']),
+                rule='the process-column dumps re-stamped so that 2 / 3 / 5 / all consecutive records share one timestamp: '
+                     'lines vs the model, and (timestamp column off) vs the lines of the dump with distinct timestamps')
     run_section(rep, 'process-column-kevents', [{'bits': '111111', 'stream': pc_kevent_stream(x)} for x in pcs[:200 * k]],
                 kevent_line, kevent_impl, kevent_oracle, nontrivial_fn=lambda c, g: g.startswith('ok ') and len(g) > 3,
                 rule=RULES['process-column-kevents'])
@@ -884,6 +930,7 @@ SECTIONS = {
     'callstack-texts': (cs_line, cs_impl, cs_oracle),
     'process-column': (pc_line, pc_impl, pc_oracle),
     'process-column-kevents': (kevent_line, kevent_impl, kevent_oracle),
+    'process-column-same-tick': (pc_line, pc_impl, tick_oracle),
     'log-lines': (log_line, log_impl, log_oracle),
 }
 
